@@ -5,7 +5,10 @@
      init  sl_c cl_c mb_c mu_c sl_s cl_s mb_s mu_s   initial limits *given to* c and to s by the peer's
                                                      transport parameters (stream, connection, bidi/uni stream counts)
      lim   ep kind sid value      a MAX_STREAM_DATA (kind "stream"), MAX_DATA ("conn"), MAX_STREAMS ("bidi"/"uni")
-                                  frame arrived in a packet the endpoint could authenticate
+                                  frame arrived in a packet the endpoint could authenticate; in a resumed session (init
+                                  then carries the limits remembered from the ticket) the peer's transport parameters
+                                  processed during the handshake: "stream0" (initial limit of every stream), "conn",
+                                  "bidi", "uni" (FlowSend!RecvTransportParams)
      sent  ep ends                a packet left ep; ends = <<sid, highest offset of the frame>> for every STREAM frame
                                   and <<sid, final size>> for every RESET_STREAM frame in it
      write ep sid n / reset ep sid   application calls (for the progress clause)
@@ -30,6 +33,7 @@ Apply(hi, ends, i) == IF i > Len(ends) THEN hi
 
 StepE(x, e) ==
   CASE e.ev = "lim"   -> (CASE e.kind = "stream" -> [x EXCEPT !.lim = Put(@, e.sid, MaxOf(At(@, e.sid, 0), e.value))]
+                            [] e.kind = "stream0" -> [x EXCEPT !.sl = MaxOf(@, e.value)]   \* transport parameters: every stream
                             [] e.kind = "conn"   -> [x EXCEPT !.cl = MaxOf(@, e.value)]
                             [] e.kind = "bidi"   -> [x EXCEPT !.mb = MaxOf(@, e.value)]
                             [] e.kind = "uni"    -> [x EXCEPT !.mu = MaxOf(@, e.value)])
